@@ -213,15 +213,16 @@ func sameDen(a, b gts.FeatureSlice) (bool, string) {
 
 func (m c04) laws(c *fw.Ctx, kind string, tab []gts.Feature, hostB []byte, a, b int) {
 	L := len(hostB)
+	// the listed join-reduction defect can fire in one rotation path and not
+	// in the other; the features it can touch are attributed to it and not
+	// compared (the other features of the table still are).
+	dropSkip := map[string]bool{}
 	if c.KFEnabled("join-drops-point-after-range") {
-		// the listed join-reduction defect can fire in one rotation path and not
-		// in the other; such tables are attributed to it and not compared.
 		for _, f := range tab {
 			pp := model.Parts(f.Loc)
 			for _, n := range []int{a, a + b, b, 0, -a} {
 				if _, did := model.DropPointAfterRange(model.ImageRotate(pp, n, L)); did {
-					c.Known("join-drops-point-after-range", fmt.Sprintf("RotateLaws a=%d b=%d %s", a, b, model.SafeString(f.Loc)))
-					return
+					dropSkip[gen.Label(f)] = true
 				}
 			}
 		}
@@ -263,6 +264,10 @@ func (m c04) laws(c *fw.Ctx, kind string, tab []gts.Feature, hostB []byte, a, b 
 			if !ok {
 				c.Violate("RotateLaws:"+law+"-feature-missing", enc, gen.Label(f), "")
 				return false
+			}
+			if dropSkip[gen.Label(f)] {
+				c.Known("join-drops-point-after-range", fmt.Sprintf("RotateLaws a=%d b=%d %s", a, b, model.SafeString(f.Loc)))
+				continue
 			}
 			before := model.Parts(f.Loc)
 			// path-dependent but legitimate reductions (duplicate absorption, the
